@@ -180,6 +180,7 @@ class Mirror(_Embed):
     name = 'mirror/first_axis'
     grids = ('Grid1D', 'Grid2D', 'Grid3D')
     uf_congruence = False
+    reverse_velocity = True
 
     def setup(self, w):
         m2 = w.mirrored_mesh(0)
@@ -191,7 +192,7 @@ class Mirror(_Embed):
             comps = []
             for a in range(w.nd):
                 c = getattr(k, '_' + AX[a] + 'value')
-                comps.append(w.flip(c, 0, negate=(neg and a == 0)))
+                comps.append(w.flip(c, 0, negate=(neg and a == 0 and self.reverse_velocity)))
             while len(comps) < 3:
                 comps.append(w.np.array([]))
             k2 = fac.FaceVariable(m2, comps[0], comps[1], comps[2])
